@@ -1060,37 +1060,7 @@ Proof.
   - apply expiry_revert_exact.
 Qed.
 
-(** ** getElementProof reads only live nodes (checked exhaustively up to 128 leaves) *)
-Definition reads_live_upto (B : N) : bool :=
-  forallb (λ n, forallb (λ leaf,
-    match get_proof_reads leaf n with
-    | Some reads => forallb (λ '(r, c), live n r c) reads
-    | None => false
-    end) (nrange n)) (nrange (B + 1)).
-
-Lemma nrange_elem k x : x < k → In x (nrange k).
-Proof.
-  intros H. unfold nrange. apply in_map_iff. exists (N.to_nat x). split; [apply N2Nat.id|].
-  apply in_seq. lia.
-Qed.
-
-Lemma reads_live_128 : reads_live_upto 128 = true.
-Proof. by vm_compute. Qed.
-
-Theorem get_proof_reads_live_bounded n leaf :
-  n <= 128 → leaf < n →
-  ∃ reads, get_proof_reads leaf n = Some reads ∧
-           ∀ r c, In (r, c) reads → (c + 1) * 2 ^ r <= n.
-Proof.
-  intros Hn Hl. pose proof reads_live_128 as H. unfold reads_live_upto in H.
-  assert (n < 128 + 1) as Hn' by lia.
-  rewrite forallb_forall in H. specialize (H n (nrange_elem _ _ Hn')).
-  rewrite forallb_forall in H. specialize (H leaf (nrange_elem _ _ Hl)).
-  destruct (get_proof_reads leaf n) as [reads|]; [|done].
-  exists reads. split; [done|]. intros r c Hin. rewrite forallb_forall in H.
-  specialize (H (r, c) Hin). cbn in H. by apply N.leb_le.
-Qed.
-
+(** ** getElementProof: see Chain/AccumProofs.v for [get_proof_reads_live] (unbounded) *)
 (** with one entry more (bits.Len64 without the -1) the first proof already reads a node
     that is not live *)
 Example proof_len_off_by_one_reads_stale :
